@@ -77,6 +77,9 @@ class C15(Prop):
                     a += Fraction(1, 4) / sr
                 if rng.random() < 0.3:
                     b += Fraction(1, 2) / sr
+                if rng.random() < 0.12:
+                    # shorter than one sample (or empty): floor(duration x samplerate) = 0 frames, not "all the rest"
+                    b = a + Fraction(rng.choice([0, 1, 2, 4, 7]), 8) / sr
             else:
                 for _ in range(1000):
                     a = Fraction(rng.randint(0, n * 100), 100) / sr
